@@ -95,7 +95,8 @@ class CheckBase:
         net = N.reset(cfg['seed'] ^ 0x77)
         ctx = Ctx(self.id, plan, s)
         ctx.net = net
-        if cfg.get('line_p', 0) > 0 and self.line_allow:
+        s.line_hot = {k: (v[0], tuple(v[1])) for k, v in (cfg.get('line_hot') or {}).items()}
+        if (cfg.get('line_p', 0) > 0 or s.line_hot) and self.line_allow:
             S.enable_line_preemption(self.line_allow)
         err = None
 
